@@ -332,6 +332,9 @@ Definition render_stmt (st : stmt) : str :=
   | _ => render_segs (stmt_segs st)
   end.
 
+(* what is left of a computed GO TO once its label list is set aside: the selector expression *)
+Definition goto_segs (e : expr) : list seg := [GWord (s "goto,"); GExpr e].
+
 Definition wf_lab (lab : option str) : bool := match lab with Some l => label_ok l | None => true end.
 
 Definition wf_stmt (st : stmt) : bool :=
@@ -343,7 +346,7 @@ Definition wf_stmt (st : stmt) : bool :=
                       && forallb (fun p => negb (is_nil (render_e (snd p)))) pairs
   | SEndAssoc => true
   | SFormat lab _ body => label_ok lab && ptree_ok body && negb (existsb (Ascii.eqb nl) (flat body))
-  | SGoto labels e => negb (is_nil labels) && forallb label_ok labels && wf_e e
+  | SGoto labels e => negb (is_nil labels) && forallb label_ok labels && wf_segs (goto_segs e)
   end.
 
 (* ---- references of a statement (Spec).  The target of a CALL is a reference whether or not an
@@ -367,7 +370,7 @@ Inductive den := DProc (id : str) | DVar | DType | DUnknown.
 
 Definition ent_den (e : entity) : den :=
   match e with
-  | EFunc id _ _ => DProc id
+  | EFunc id _ => DProc id
   | EProc id => DProc id
   | EVar _ _ => DVar
   | EType _ => DType
@@ -383,7 +386,7 @@ Fixpoint denote (tb : symtab) (ctx : labels) (ch : chain) : den :=
   | x :: rest =>
     match assoc_get x ctx with
     | Some (EVar t _) => match assoc_get t (st_types tb) with Some c => denote tb c rest | None => DUnknown end
-    | Some (EFunc _ t _) => match assoc_get t (st_types tb) with Some c => denote tb c rest | None => DUnknown end
+    | Some (EFunc _ t) => match assoc_get t (st_types tb) with Some c => denote tb c rest | None => DUnknown end
     | Some (EType t) => match assoc_get t (st_types tb) with Some c => denote tb c rest | None => DUnknown end
     | _ => DUnknown
     end
@@ -480,77 +483,32 @@ Definition classify0 (tb : symtab) (ch : chain) : list str :=
 Definition region_intrinsic_named (tb : symtab) (ss : list stmt) : bool :=
   existsb (fun ch => is_proc_den (denote tb (st_scope tb) ch) && str_in (last_of ch) INTRINSICS) (some_refs ss).
 
-(* 2: two references with the same last component mean different things *)
-Definition region_same_last (tb : symtab) (ss : list stmt) : bool :=
-  let rs := some_refs ss in
-  existsb (fun a => existsb (fun b => str_eqb (last_of a) (last_of b)
-                                      && negb (list_eqb str_eqb (classify0 tb a) (classify0 tb b))) rs) rs.
-
-(* 4: a labelled CALL whose target carries no argument list *)
-Definition region_labelled_call (ss : list stmt) : bool :=
-  existsb (fun st => match st with
-                     | SCall (Some _) d => negb (last_has_args d)
-                     | SIfCall (Some _) _ _ d => negb (last_has_args d)
-                     | _ => false
-                     end) ss.
-
-(* 5: FORMAT written without a blank before the parenthesis *)
-Definition region_format_nospace (ss : list stmt) : bool :=
-  existsb (fun st => match st with SFormat _ false _ => true | _ => false end) ss.
-
-(* 6: an ASSOCIATE selector that is an expression, not a designator *)
-Definition region_assoc_expr (ss : list stmt) : bool :=
-  existsb (fun st => match st with
-                     | SAssoc _ pairs => existsb (fun p => match snd p with EDes _ => false | _ => true end) pairs
-                     | _ => false
-                     end) ss.
-
-(* 9: a computed GO TO whose selector expression contains a reference *)
-Definition region_goto_expr (ss : list stmt) : bool :=
-  existsb (fun st => match st with SGoto _ e => negb (is_nil (refs_e e)) | _ => false end) ss.
-
-(* 10: a designator with more than one  name(args)  part whose inner part is not a variable
-   (FORD records the longest chain only) *)
-Definition region_inner_ref (tb : symtab) (ss : list stmt) : bool := false.
-
 (* FORD's tables against the tables Fortran's scoping gives, on the references of this unit:
    1: a reference that is a variable or type in truth is unknown to FORD (unresolved array)
-   8: resolving a reference raises
    7: any other difference in what a reference denotes (name resolution, property C07) *)
-Definition ford_class (tb : symtab) (ch : chain) : option (list str) :=
+Definition ford_class (tb : symtab) (ch : chain) : list str :=
   match find_chain tb (st_scope tb) ch with
-  | FCrash => None
-  | FNone => Some (if str_in (last_of ch) INTRINSICS then [] else [last_of ch])
-  | FFound (EVar _ _) => Some []
-  | FFound (EType _) => Some []
-  | FFound (EFunc id _ _) => Some (if str_in (last_of ch) INTRINSICS then [] else [id])
-  | FFound (EProc id) => Some (if str_in (last_of ch) INTRINSICS then [] else [id])
+  | None => if str_in (last_of ch) INTRINSICS then [] else [last_of ch]
+  | Some (EVar _ _) => []
+  | Some (EType _) => []
+  | Some (EFunc id _) => if str_in (last_of ch) INTRINSICS then [] else [id]
+  | Some (EProc id) => if str_in (last_of ch) INTRINSICS then [] else [id]
   end.
 
 Definition region_unresolved (tb_ford tb_true : symtab) (ss : list stmt) : bool :=
   existsb (fun ch => match find_chain tb_ford (st_scope tb_ford) ch, denote tb_true (st_scope tb_true) ch with
-                     | FNone, DVar => true
-                     | FNone, DType => true
+                     | None, DVar => true
+                     | None, DType => true
                      | _, _ => false
                      end) (some_refs ss).
-Definition region_crash (tb_ford : symtab) (ss : list stmt) : bool :=
-  existsb (fun ch => match find_chain tb_ford (st_scope tb_ford) ch with FCrash => true | _ => false end) (some_refs ss).
 Definition region_tables (tb_ford tb_true : symtab) (ss : list stmt) : bool :=
-  existsb (fun ch => match ford_class tb_ford ch with
-                     | Some l => negb (list_eqb str_eqb l
+  existsb (fun ch => negb (list_eqb str_eqb (ford_class tb_ford ch)
                                    (if is_proc_den (denote tb_true (st_scope tb_true) ch) && str_in (last_of ch) INTRINSICS
-                                    then [] else classify0 tb_true ch))
-                     | None => false
-                     end) (some_refs ss).
+                                    then [] else classify0 tb_true ch))) (some_refs ss).
 
+(* the open regions (2, 4, 5, 6, 8, 9 were repaired in FORD) *)
 Definition region_of (tb_ford tb_true : symtab) (ss : list stmt) : nat :=
-  if region_crash tb_ford ss then 8
-  else if region_unresolved tb_ford tb_true ss then 1
+  if region_unresolved tb_ford tb_true ss then 1
   else if region_tables tb_ford tb_true ss then 7
   else if region_intrinsic_named tb_true ss then 3
-  else if region_labelled_call ss then 4
-  else if region_format_nospace ss then 5
-  else if region_assoc_expr ss then 6
-  else if region_goto_expr ss then 9
-  else if region_same_last tb_true ss then 2
   else 0.
